@@ -539,6 +539,11 @@ def grab (s : State) (h : Nat) (lid : Nat) : State × Out :=
   | none => (s, .err .noLayer)
   | some l => ({ s with handles := (h, (l.data, l.dims)) :: s.handles }, .ok)
 
+/-- legacy `h = grid.empty_mask`: the property hands out the live `_empty_mask` array (array 0), not a copy — the
+    counterpart of `grab h 0` (`grid.empty.data`) on a cell space -/
+def grabMask (s : State) (h : Nat) : State × Out :=
+  if s.impl = .new then (s, .err .impl) else ({ s with handles := (h, (0, s.dims)) :: s.handles }, .ok)
+
 /-- `PropertyLayer.from_data(name, arr)` (new implementation) for an array the user holds: a layer object
     of the array's shape and dtype (`__init__` with `default_value = arr[0, …, 0]`, `IndexError` for an empty
     array) holding a *copy* of it (`set_cells(arr)`): the layer never aliases the source -/
@@ -819,6 +824,7 @@ inductive Op where
   | modifyCell (lid : Nat) (c : Coord) (f : Option (Int → Int))
   | modifyCellU (lid : Nat) (c : Coord) (op : UOp) (x : Val)
   | grab (h : Nat) (lid : Nat)
+  | grabMask (h : Nat)
   | fromData (name : String) (h : Nat)
   | hget (h : Nat) (c : Coord)
   | hset (h : Nat) (c : Coord) (v : WVal)
@@ -879,6 +885,7 @@ def step (s : State) : Op → State × Out
   | .modifyCell l c f => modifyCell s l c f
   | .modifyCellU l c op x => modifyCellU s l c op x
   | .grab h l => grab s h l
+  | .grabMask h => grabMask s h
   | .fromData n h => fromData s n h
   | .hget h c => (s, hget s h c)
   | .hset h c w => hset s h c (s.handleWVal h w)
